@@ -100,6 +100,7 @@ typedef struct _THREAD_ARGS
   CALLBACK_ARGS callback_args;
   time_t deadline;
   int current_count;
+  int scan_errors;
 
 } THREAD_ARGS;
 
@@ -1331,6 +1332,7 @@ static void* scanning_thread(void* param)
         _ftprintf(stderr, _T("error scanning %s: "), file_path);
         print_scanner_error(args->scanner, result);
         cli_mutex_unlock(&output_mutex);
+        args->scan_errors++;
       }
 
       free(file_path);
@@ -1630,11 +1632,13 @@ int _tmain(int argc, const char_t** argv)
 
     THREAD thread[YR_MAX_THREADS];
     THREAD_ARGS thread_args[YR_MAX_THREADS];
+    bool scan_errors = false;
 
     for (int i = 0; i < threads; i++)
     {
       thread_args[i].deadline = scan_opts.deadline;
       thread_args[i].current_count = 0;
+      thread_args[i].scan_errors = 0;
 
       result = yr_scanner_create(rules, &thread_args[i].scanner);
 
@@ -1672,11 +1676,18 @@ int _tmain(int argc, const char_t** argv)
     for (int i = 0; i < threads; i++) cli_thread_join(&thread[i]);
 
     for (int i = 0; i < threads; i++)
+    {
+      // An error reported by a scanning thread makes the exit status non-zero,
+      // as it does when a single file is scanned.
+      if (thread_args[i].scan_errors > 0)
+        scan_errors = true;
+
       yr_scanner_destroy(thread_args[i].scanner);
+    }
 
     file_queue_destroy();
 
-    if (result != ERROR_SUCCESS)
+    if (result != ERROR_SUCCESS || scan_errors)
       exit_with_code(EXIT_FAILURE);
   }
   else
